@@ -254,7 +254,9 @@ def shard_list(tier, seed):
         # every scoping root x every kind of its first child, the following slot symbolic
         for root in SCOPING_ROOTS:
             for child in R.KINDS:
-                out.append({'doc': ['dict', 'rows', 'list', 'int', 'nest'][(K[root] + K[child]) % 5],
+                # documents with at most two symbolic ints: an error message that prints the document makes the tool
+                # enumerate every int in it (measured: dict/nest documents cost 5-9 cpu-minutes per shard here)
+                out.append({'doc': ['pair', 'int', 'rows'][(K[root] + K[child]) % 3],
                             'template': [K[root], K[child], None], 'depth': 2})
     return out
 
